@@ -58,7 +58,8 @@ impl MSpec {
 
 #[derive(Clone, Debug)]
 pub struct Delivery {
-    pub index: u32,
+    pub index: u32,     // position of the message in the input (derived from the raw index and the case's index scheme)
+    pub raw_index: u32, // the index field the delivered message carries
     pub ecu: u8,
     pub rt: u64,
     pub ts_dms: u32,
@@ -92,7 +93,18 @@ fn ecu_no(e: &DltChar4) -> u8 {
 
 /// runs `pre` then `msgs` through the real detector (the second run re-uses the write handle of the first,
 /// i.e. starts from a pre-populated table).  `other_thread`: also look every delivery up from a second thread.
+/// index scheme of a case: message k of a run carries index base + k*stride (the periodic refresh of the detector is
+/// driven by message indices: strides > 1 reach it with short traces)
+pub type Scheme = (u32, u32);
 pub fn run_detector(pre: &[MSpec], msgs: &[MSpec], other_thread: bool) -> LcRun {
+    run_detector_s(pre, msgs, other_thread, (0, 1))
+}
+pub fn run_detector_s(pre: &[MSpec], msgs: &[MSpec], other_thread: bool, scheme: Scheme) -> LcRun {
+    let (ibase, istride) = scheme;
+    let idx = move |i: usize| ibase + (i as u32) * istride;
+    let pos_of = move |index: u32| -> usize {
+        if index >= ibase && istride > 0 && (index - ibase) % istride == 0 { ((index - ibase) / istride) as usize } else { usize::MAX }
+    };
     // base id: ids are global; we are the only creator of lifecycles in this process right now
     let base = {
         let mut m = MSpec { ecu: 99, rt: 1, ts_dms: 0, has_ts: true, kind: 0 }.build(0);
@@ -105,14 +117,14 @@ pub fn run_detector(pre: &[MSpec], msgs: &[MSpec], other_thread: bool) -> LcRun 
         if !pre.is_empty() {
             let (tx, rx) = channel();
             for (i, s) in pre.iter().enumerate() {
-                tx.send(s.build(i as u32)).unwrap();
+                tx.send(s.build(idx(i))).unwrap();
             }
             drop(tx);
             lcs_w = adlt::lifecycle::parse_lifecycles_buffered_from_stream(lcs_w, rx, &|_m| Ok(()));
         }
         let (tx, rx) = channel();
         for (i, s) in msgs.iter().enumerate() {
-            tx.send(s.build(i as u32)).unwrap();
+            tx.send(s.build(idx(i))).unwrap();
         }
         drop(tx);
         let deliveries = std::cell::RefCell::new(Vec::<Delivery>::new());
@@ -141,13 +153,15 @@ pub fn run_detector(pre: &[MSpec], msgs: &[MSpec], other_thread: bool) -> LcRun 
             } else {
                 pub_same
             };
-            let intact = (m.index as usize) < msgs2.len() && {
-                let mut o = msgs2[m.index as usize].build(m.index);
+            let pos = pos_of(m.index);
+            let intact = pos < msgs2.len() && {
+                let mut o = msgs2[pos].build(m.index);
                 o.lifecycle = m.lifecycle;
                 o == m
             };
             deliveries.borrow_mut().push(Delivery {
-                index: m.index,
+                index: if pos == usize::MAX { u32::MAX } else { pos as u32 },
+                raw_index: m.index,
                 ecu: ecu_no(&m.ecu),
                 rt: m.reception_time_us,
                 ts_dms: m.timestamp_dms,
@@ -200,7 +214,7 @@ impl LcRun {
         }
         O::T(vec![
             O::L(0),
-            O::T(self.deliveries.iter().map(|d| O::T(vec![O::n(d.index), O::n(d.lc), O::b(d.pub_same && d.pub_other)])).collect()),
+            O::T(self.deliveries.iter().map(|d| O::T(vec![O::n(d.raw_index), O::n(d.lc), O::b(d.pub_same && d.pub_other)])).collect()),
             O::T(self.table.iter().map(|r| O::T(vec![O::n(r.id), O::n(r.ecu), O::n(r.nr_msgs), O::n(r.start), O::n(r.end), O::b(r.is_resume), O::n(r.origin)])).collect()),
             match &self.listing {
                 Ok(l) => O::T(vec![O::L(0), O::T(l.iter().map(|i| O::n(*i)).collect())]),
@@ -213,12 +227,30 @@ impl LcRun {
 pub fn coq_msgs(ms: &[MSpec]) -> String {
     clist(&ms.iter().map(|m| m.coq()).collect::<Vec<_>>())
 }
-/// Coq term of type case_LC = (list mspec * list mspec)
-pub fn coq_case(pre: &[MSpec], msgs: &[MSpec]) -> String {
-    format!("({}, {})", coq_msgs(pre), coq_msgs(msgs))
+/// Coq term of type case_LC = (N * N * (list mspec * list mspec))
+pub fn coq_case(scheme: Scheme, pre: &[MSpec], msgs: &[MSpec]) -> String {
+    format!("({}, {}, ({}, {}))", scheme.0, scheme.1, coq_msgs(pre), coq_msgs(msgs))
 }
-pub fn json_case(pre: &[MSpec], msgs: &[MSpec]) -> Value {
-    json!({"pre": pre.iter().map(|m| m.json()).collect::<Vec<_>>(), "msgs": msgs.iter().map(|m| m.json()).collect::<Vec<_>>()})
+pub fn json_case(scheme: Scheme, pre: &[MSpec], msgs: &[MSpec]) -> Value {
+    json!({"index_base": scheme.0, "index_stride": scheme.1, "pre": pre.iter().map(|m| m.json()).collect::<Vec<_>>(), "msgs": msgs.iter().map(|m| m.json()).collect::<Vec<_>>()})
+}
+pub fn scheme_from_json(v: &Value) -> Scheme {
+    (v["index_base"].as_u64().unwrap_or(0) as u32, v["index_stride"].as_u64().unwrap_or(1) as u32)
+}
+/// mostly (0,1); one case in four uses a stride / base that makes the indices cross multiples of 100 000 (the period of the
+/// detector's regular refresh) every few messages or once inside the trace
+pub fn gen_scheme(rng: &mut Rng, n: usize) -> Scheme {
+    if rng.below(4) != 0 {
+        return (0, 1);
+    }
+    let stride = [1u32, 997, 25_000, 50_000, 100_001, 250_000, 33_334][rng.below(7) as usize];
+    let base = match rng.below(4) {
+        0 => 0,
+        1 => 100_000u32.saturating_sub(rng.below(n as u64 + 2) as u32), // the threshold is crossed inside the trace even with stride 1
+        2 => 1_000_000,
+        _ => rng.below(200_000) as u32,
+    };
+    (base, stride)
 }
 pub fn case_from_json(v: &Value) -> (Vec<MSpec>, Vec<MSpec>) {
     let f = |k: &str| v[k].as_array().map(|a| a.iter().map(MSpec::from_json).collect()).unwrap_or_default();
@@ -641,8 +673,8 @@ pub fn lc_main(prop: &str) {
     let mut sink = Sink::new(prop, &a.out);
     sink.shard_size = 40;
     let other_thread = prop == "C06";
-    let record = |sink: &mut Sink, pre: Vec<MSpec>, msgs: Vec<MSpec>, clean: Option<&CleanTrace>| {
-        let r = run_detector(&pre, &msgs, other_thread);
+    let record_s = |sink: &mut Sink, scheme: Scheme, pre: Vec<MSpec>, msgs: Vec<MSpec>, clean: Option<&CleanTrace>| {
+        let r = run_detector_s(&pre, &msgs, other_thread, scheme);
         let verdict = match prop {
             "C05" => oracle_c05(&msgs, &r),
             "C06" => oracle_c06(&msgs, &r),
@@ -656,10 +688,22 @@ pub fn lc_main(prop: &str) {
         if clean.is_some() {
             tags.push("clean_trace".into());
         }
+        if scheme != (0, 1) {
+            tags.push("index_scheme".into());
+            let last = scheme.0 as u64 + (msgs.len().max(1) as u64 - 1) * scheme.1 as u64;
+            if last > 100_000 {
+                tags.push(format!("regular_refresh_reachable_x{}", (last / 100_000).min(5)));
+            }
+        }
         let classes = vec![];
-        let input_coq = if prop == "C07" { format!("CStream {}", coq_case(&pre, &msgs)) } else { coq_case(&pre, &msgs) };
+        let input_coq = if prop == "C07" { format!("CStream {}", coq_case(scheme, &pre, &msgs)) } else { coq_case(scheme, &pre, &msgs) };
         let id = sink.next_id();
-        sink.push(Case { id, key: input_coq.clone(), input_coq, input_json: json_case(&pre, &msgs), obs: r.obs(), verdict, classes, tags, nontrivial });
+        sink.push(Case { id, key: input_coq.clone(), input_coq, input_json: json_case(scheme, &pre, &msgs), obs: r.obs(), verdict, classes, tags, nontrivial });
+    };
+    let mut srng = Rng::new(a.seed ^ 0x1d5c);
+    let mut record = |sink: &mut Sink, pre: Vec<MSpec>, msgs: Vec<MSpec>, clean: Option<&CleanTrace>| {
+        let scheme = gen_scheme(&mut srng, msgs.len());
+        record_s(sink, scheme, pre, msgs, clean)
     };
     if let Some(p) = &a.replay {
         let v = read_replay(p);
@@ -668,13 +712,25 @@ pub fn lc_main(prop: &str) {
             record_table(&mut sink, rows);
         } else {
             let (pre, msgs) = case_from_json(&v["case"]);
-            record(&mut sink, pre, msgs, None);
+            record_s(&mut sink, scheme_from_json(&v["case"]), pre, msgs, None);
         }
         sink.finish();
         return;
     }
     for (pre, msgs) in corpus() {
-        record(&mut sink, pre, msgs, None);
+        record_s(&mut sink, (0, 1), pre, msgs, None);
+    }
+    // one ECU, two cleanly separated boots, the second one long in index terms: the regular refresh (every 100 000 message
+    // indices) happens while a confirmed lifecycle keeps receiving directly forwarded messages
+    for (base, stride) in [(0u32, 1_000u32), (99_900, 1), (0, 50_001), (5, 100_001)] {
+        let mut msgs = vec![];
+        for k in 0..40u64 {
+            msgs.push(MSpec { ecu: 1, rt: RHO + k * 250_000, ts_dms: (k * 2_500) as u32 + 10, has_ts: true, kind: 0 });
+        }
+        for k in 0..260u64 {
+            msgs.push(MSpec { ecu: 1, rt: RHO + 100_000_000 + k * 500_000, ts_dms: (k * 5_000) as u32 + 10, has_ts: true, kind: 0 });
+        }
+        record_s(&mut sink, (base, stride), vec![], msgs, None);
     }
     if prop == "C07" {
         // listing on arbitrary tables (resume chains whose start estimates cross, ties, origins missing from the table)
